@@ -87,6 +87,56 @@ theorem C10_others_served (C : Consts) (sizes : Nat → Nat) (s s' : S) (hq : s.
         · split at h <;> cases h <;> exact ⟨Nat.le_refl _, rfl⟩
 
 
+/-- **A call that is ready goes first.** If the scan of the connections finds one ready, whatever this iteration writes
+    goes to that connection - never to a client with an open reply stream: the global write log grows by at most the
+    winner's id. (With `C10_others_served`: an arrival while streams are being forwarded is answered before any stream
+    forwards its next item - what the `SV2` runs observe on the real server's write order.) -/
+theorem C10_ready_call_goes_first (C : Consts) (sizes : Nat → Nat) (s s' : S) (hq : s.listenQ = [])
+    (idx : Nat) (o : Out) (c : Conn) (cs : List Conn)
+    (hscan : (if s.conns.length = 0 then (s.conns, none) else
+        scanCalls C sizes s.conns.length (match s.lastCall with | some i => i + 1 | none => 0) s.conns.length s.conns)
+        = (cs, some (idx, o, c)))
+    (h : iter C sizes s = some s') : s'.wlog = s.wlog ∨ s'.wlog = s.wlog ++ [c.id] := by
+  unfold iter at h
+  rw [hq] at h
+  simp only [] at h
+  generalize hsc : (if s.conns.length = 0 then (s.conns, none) else
+      scanCalls C sizes s.conns.length _ s.conns.length s.conns) = sc at h
+  have hsc' : sc = (cs, some (idx, o, c)) := by rw [← hsc]; exact hscan
+  subst hsc'
+  simp only [] at h
+  cases o with
+  | pending => simp only [] at h; cases h; exact Or.inl rfl
+  | err e => simp only [] at h; cases h; exact Or.inl rfl
+  | frame f =>
+    simp only [] at h
+    cases hc : c.calls with
+    | nil => rw [hc] at h; simp only [] at h; cases h; exact Or.inl rfl
+    | cons d rest =>
+      rw [hc] at h
+      simp only [] at h
+      cases d with
+      | garbage => simp only [] at h; cases h; exact Or.inl rfl
+      | sub m => simp only [] at h; cases h; exact Or.inl rfl
+      | unser ow =>
+        cases ow with
+        | false => simp only [] at h; cases h; exact Or.inl rfl
+        | true =>
+          simp only [] at h
+          split at h
+          · cases h; exact Or.inl rfl
+          · split at h <;> cases h <;> first | exact Or.inl rfl | exact Or.inr rfl
+      | echo v ow =>
+        simp only [] at h
+        split at h
+        · cases h; exact Or.inl rfl
+        · split at h <;> cases h <;> first | exact Or.inl rfl | exact Or.inr rfl
+      | fail ow =>
+        simp only [] at h
+        split at h
+        · cases h; exact Or.inl rfl
+        · split at h <;> cases h <;> first | exact Or.inl rfl | exact Or.inr rfl
+
 /-- **While a stream is open other clients are served to completion.** In EVERY reachable state in which the
     server loop can make no progress — reply streams may be open, waiting for their service for as long as it
     likes — every well-behaved connection that is not itself streaming and whose bytes have all arrived has had
